@@ -21,7 +21,8 @@ macro_rules
   `(tactic| simp (disch := (first | omega | (dsimp only; omega))) only
       [uadd_ok, usub_ok, amod_run, smod_run, dassert_decide, checkRange_ok, if_pos, if_neg,
        bind_run, pure_run, getBuf_run, setBuf_run, getSys_run, liftE_ok, liftE_err, raise_run,
-       ge_iff_le, gt_iff_lt, ite_true, ite_false, $ls,*] $[$loc]?)
+       ge_iff_le, gt_iff_lt, ite_true, ite_false, or_true, true_or, eq_self, decide_true,
+       dassert_true, $ls,*] $[$loc]?)
 
 /-! ### helpers -/
 
